@@ -679,20 +679,21 @@ func (s *Service) deleteJournal(ctx context.Context, j journal.Journal) bool {
 		return false
 	}
 
-	dir := j.Chunks().LocalFolder()
+	// The folder goes first, the index record after it: the tag index tolerates a record without data at start,
+	// but it refuses to start when it finds data without a record, so a crash in between must leave the former.
+	if dir := j.Chunks().LocalFolder(); len(dir) > 0 {
+		if err := os.RemoveAll(dir); err != nil {
+			s.TIndex.UnlockExclusively(jn)
+			s.logger.Error("deleteJournal(): could not remove folder ", dir, " for the partition ", jn, " err=", err)
+			return false
+		}
+	}
 
 	err := s.TIndex.Delete(jn)
 	s.TIndex.UnlockExclusively(jn)
 	if err != nil {
 		s.logger.Warn("deleteJournal(): could not delete the partition ", jn, " err=", err)
 		return false
-	}
-
-	if len(dir) > 0 {
-		err = os.RemoveAll(dir)
-		if err != nil {
-			s.logger.Error("deleteJournal(): could not remove folder ", dir, " for the partition ", jn, " err=", err)
-		}
 	}
 	return true
 }
